@@ -1,0 +1,15 @@
+//go:build verif
+// +build verif
+
+package node
+
+import (
+	"github.com/LemoFoundationLtd/lemochain-core/chain"
+	"github.com/LemoFoundationLtd/lemochain-core/chain/txpool"
+)
+
+// VerifTxAPI returns the production PublicTxAPI on a detached Node that only has a chain id, a chain and a
+// tx pool (what SendTx uses). Verification hook for property C04; add-only, compiled only with -tags verif.
+func VerifTxAPI(chainID uint16, bc *chain.BlockChain, pool *txpool.TxPool) *PublicTxAPI {
+	return NewPublicTxAPI(&Node{chainID: chainID, chain: bc, txPool: pool})
+}
